@@ -395,7 +395,8 @@ func downstream(cmds []ast.Command, comments []*ast.Comment, r wproto.Req, resp 
 			n++
 		}
 	}
-	envs := []*interp.ExecEnv{interp.NewExecEnv("sh", "p1", "", "p 2", ""), interp.NewExecEnv("sh")}
+	envs := []*interp.ExecEnv{interp.NewExecEnv("sh", "p1", "", "p 2", ""), interp.NewExecEnv("sh"),
+		interp.NewExecEnv("sh", "a", "b"), interp.NewExecEnv("sh", "a", "", "c"), interp.NewExecEnv("sh", "q"), interp.NewExecEnv("sh", "", "")}
 	for _, e := range envs {
 		e.Set("x", "a b")
 		e.Set("HOME", "/nonexistent")
@@ -403,12 +404,21 @@ func downstream(cmds []ast.Command, comments []*ast.Comment, r wproto.Req, resp 
 	// the second environment splits at a comma and at a byte that is not valid UTF-8
 	envs[1].Set("IFS", "\xff, ")
 	envs[1].Set("x", "\xff\xffa,b \xffc")
+	// further values of HOME and IFS: null, a lone slash, a trailing slash,
+	// unset; IFS of one ill-formed byte, of an incomplete character, null, unset
+	envs[2].Set("HOME", "")
+	envs[2].Set("IFS", "\xff")
+	envs[3].Set("HOME", "/")
+	envs[3].Set("IFS", "")
+	envs[4].Unset("HOME")
+	envs[4].Unset("IFS")
+	envs[4].Set("x", "")
+	envs[5].Set("HOME", "/h/")
+	envs[5].Set("IFS", "\xe2\x82")
+	envs[5].Unset("x")
 	for wi, w := range words {
-		e := envs[wi%2]
-		if len(words) < 40 {
-			e = envs[0]
-		}
-		for ei := 0; ei < 2; ei++ {
+		e := envs[wi%len(envs)]
+		for ei := 0; ei < len(envs); ei++ {
 			if len(words) < 40 {
 				e = envs[ei]
 			} else if ei == 1 {
